@@ -81,8 +81,10 @@ varintWidth varintPFORComputeThreshold(const uint64_t *values, uint32_t count,
     /* Count exceptions - values above threshold percentile */
     uint32_t exceptionCount = 0;
     for (uint32_t i = 0; i < count; i++) {
-        if (values[i] > thresholdValue) {
-            /* Value above threshold is an exception */
+        if (values[i] > thresholdValue || values[i] - min == marker) {
+            /* Value above threshold is an exception; so is an in-range value
+             * whose offset equals the marker, or the decoder could not tell
+             * it from one */
             exceptionCount++;
         }
     }
@@ -159,7 +161,9 @@ size_t varintPFOREncode(uint8_t *dst, const uint64_t *values, uint32_t count,
     for (uint32_t i = 0; i < count; i++) {
         uint64_t value = values[i];
 
-        if (value > meta->thresholdValue && exceptions) {
+        if ((value > meta->thresholdValue ||
+             value - meta->min == meta->exceptionMarker) &&
+            exceptions) {
             /* Above threshold: store exception marker */
             varintExternalPutFixedWidth(dst, meta->exceptionMarker,
                                         meta->width);
